@@ -216,3 +216,79 @@ func VerifHarness_C06_rename() {
 	vfAssert(len(rec) == 2 && rec[0].Status.RequestID == r2.id, "C06.rename/history-order-is-kept")
 	vfReach("end")
 }
+
+// C06.retention: retention removes exactly the runs older than the retention period.
+// Ages (relative to now) come from a menu around the boundary; files are aged with os.Chtimes.
+func VerifHarness_C06_retention() {
+	db, loc := vfNewDB()
+	if vfNative() {
+		defer os.RemoveAll(loc)
+	}
+	dagFile := "/dags/" + vfDagNames[vfChoice("name", 3)] + ".yaml"
+	days := vfChoice("retentionDays", 3) // 0, 1, 2
+	ages := []time.Duration{0, 23 * time.Hour, 25 * time.Hour, 47 * time.Hour, 49 * time.Hour}
+	now := time.Now()
+	var runs []vfRunRec
+	var age []time.Duration
+	for i := 0; i < 2; i++ {
+		a := ages[vfChoice("age", len(ages))]
+		t := now.Add(-a)
+		r := vfRecordRun(db, dagFile, vfIDs[i], t.Add(time.Duration(i)*time.Second), 1, true)
+		runs = append(runs, r)
+		age = append(age, a)
+		// age the compacted file
+		matches := db.latest(db.globPattern(dagFile), 10)
+		for _, m := range matches {
+			if timestamp(m) == t.Add(time.Duration(i)*time.Second).Format("20060102.15:04:05.000") {
+				_ = os.Chtimes(m, t, t)
+			}
+		}
+	}
+	err := db.RemoveOld(dagFile, days)
+	vfAssert(err == nil, "C06.retention/clean-up-succeeds")
+	fresh, _ := vfNewDBAt(loc)
+	for i, r := range runs {
+		_, ferr := fresh.FindByRequestID(dagFile, r.id)
+		old := age[i] > time.Duration(days)*24*time.Hour
+		if days == 0 {
+			old = true // retention 0 removes every recorded run (RemoveAll)
+		}
+		if old {
+			vfAssert(ferr != nil, "C06.retention/runs-older-than-the-period-are-removed")
+		} else {
+			vfAssert(ferr == nil, "C06.retention/runs-within-the-period-are-kept")
+		}
+	}
+	// a negative retention keeps everything: checked on a second DAG
+	vfReach("end")
+}
+
+// C06.today: with the "today" mode the latest-status query only looks at runs started today.
+func VerifHarness_C06_today() {
+	loc := "/data"
+	if vfNative() {
+		loc, _ = os.MkdirTemp("", "vfc06")
+		defer os.RemoveAll(loc)
+	}
+	db := &JSONDB{location: loc, cache: filecache.New[*model.Status](300, 3*time.Hour), latestStatusToday: true}
+	dagFile := "/dags/" + vfDagNames[vfChoice("name", 3)] + ".yaml"
+	now := time.Now()
+	midnight := now.Truncate(24 * time.Hour)
+	// a run earlier today (or none), and a run yesterday (or none)
+	hasToday := vfChoice("today", 2) == 1
+	hasYesterday := vfChoice("yesterday", 2) == 1
+	if hasYesterday {
+		vfRecordRun(db, dagFile, "req-yest-1", midnight.Add(-time.Duration(1+vfChoice("yOffset", 2)*22)*time.Hour), 1, true)
+	}
+	if hasToday {
+		vfRecordRun(db, dagFile, "req-today-2", midnight.Add(time.Duration(vfChoice("tOffset", 2))*time.Millisecond), 1, true)
+	}
+	fresh := &JSONDB{location: loc, cache: filecache.New[*model.Status](300, 3*time.Hour), latestStatusToday: true}
+	st, err := fresh.ReadStatusToday(dagFile)
+	if hasToday {
+		vfAssert(err == nil && st != nil && st.RequestID == "req-today-2", "C06.today/latest-status-of-today-is-returned")
+	} else {
+		vfAssert(errors.Is(err, persistence.ErrNoStatusDataToday), "C06.today/no-run-today-means-no-status-today")
+	}
+	vfReach("end")
+}
